@@ -38,6 +38,8 @@ open SigModel.Trace
 sends; `half k` = the double k + 0.5) -/
 inductive AVal
   | str (s : String) | int (i : Int) | bool (b : Bool) | half (k : Nat) | arr | kvl | bytes | empty
+  /-- the KeyValue has no AnyValue at all (`keyvalue.Value == nil`) -/
+  | noValue
 deriving Repr, DecidableEq, Inhabited
 
 structure OSpan where
@@ -93,6 +95,14 @@ def attrVal : AVal → Option JVal
   | .kvl => some .kvl
   | .bytes => none
   | .empty => none
+  | .noValue => none          -- never reached: `extractAnyValue(nil)` panics, see `spanPanics`
+
+/-- `extractAnyValue(nil)` dereferences the nil pointer.  Attributes are converted in order and the first one that
+cannot be converted decides: error return (bytes, AnyValue without a value) or panic (no AnyValue). -/
+def spanPanics (sp : OSpan) : Bool :=
+  match sp.attrs.find? (fun kv => (attrVal kv.2).isNone) with
+  | some (_, .noValue) => true
+  | _ => false
 
 def baseDoc (sp : OSpan) (service : String) : List (String × JVal) :=
   [("trace_id", .str sp.trace), ("span_id", .str sp.sid), ("parent_span_id", .str sp.pid), ("service", .str service),
@@ -211,8 +221,12 @@ inductive Req
   | raw (evs : List Rec)
 deriving Repr, Inhabited
 
+/-- the request reaches a span whose conversion panics: ProcessTraceIngest does not return (nothing of the request
+is handed to the segment writer, which is called after the loop; no recover() between here and the server) -/
+def reqPanics (rs : List ResSpans) : Bool := rs.any (fun r => r.scopes.any (fun sc => sc.any spanPanics))
+
 def recsOfReq : Req → List Rec
-  | .otlp rs => (ingest rs).docs.map docToRec
+  | .otlp rs => if reqPanics rs then [] else (ingest rs).docs.map docToRec
   | .raw evs => evs
 
 /-- the order in which a `*` search returns the records: newest ingest request first, ingest order within
